@@ -5,5 +5,6 @@ CONSTANTS
   Layouts = {0, 1, 2, 3, 4}
   PreIds = {0, 1, 2}
   Pairs = FALSE
+  Hists = {"added"}
   Commands = {"lint", "ci"}
 CHECK_DEADLOCK FALSE
